@@ -318,6 +318,17 @@ def r14(repo, rep):
                    func=f, node=st, construct="with_timing %s edge rule: %s" % ("weights" if weighted else "no weights", oke),
                    detail="" if oke else "edge rule is not `delay = trans_time_fxn(u, v, *args); if delay <= duration: H.add_edge(u, v)`")
     rep.floor("R14", "with_timing arms", arms, 1)
+    # when the function branches on `weights` at its top level, BOTH branches build H by the per-node loop checked above
+    # (a branch that builds H some other way escapes the duration / delay obligations)
+    top = [s2 for s2 in f.node.body if isinstance(s2, ast.If) and "weights" in names_in(s2.test)]
+    if top:
+        def has_arm(block):
+            return any(isinstance(x, ast.For) and _k(x.iter) in ("G.nodes()", "G") for z in block for x in ast.walk(z))
+        okb = all(has_arm(t.body) and (not t.orelse or has_arm(t.orelse)) for t in top)
+        rep.ob("R14", okb, "with_timing: each branch on `weights` draws one duration per node and keeps u->v iff delay <= that duration",
+               func=f, node=top[0], construct="branches on weights with a per-node loop: %s" % okb,
+               detail="" if okb else "one branch on `weights` does not build H with the per-node loop (e.g. it draws the duration inside a "
+               "per-edge test): the contacts of a node then no longer share one infectious period")
     hd = [n for n in own_nodes(f.node) if isinstance(n, ast.Assign) and _k(n.targets[0]) == "H"]
     rep.ob("R14", len(hd) == 1 and _k(hd[0].value) == "nx.DiGraph()", "with_timing: H is a fresh DiGraph", func=f,
            node=hd[0] if hd else f.node, construct=short(hd[0]) if hd else None, detail="")
@@ -469,12 +480,12 @@ def r14(repo, rep):
     ok = len(hb) == 1 and _k(hb[0].value) == "directed_percolate_network(G,tau,gamma)" and len(rm) == 1 and len(oc) == 1 \
         and body.index(hb[0]) < body.index(rm[0]) < body.index(oc[0]) and [_k(a) for a in oc[0].value.args] == ["H", "initial_infecteds"] \
         and not oc[0].value.keywords
-    rep.ob("R14", ok, "get_infected_nodes: initially recovered nodes are removed from H before the out-component is taken", func=f,
+    rep.ob("R14.gin", ok, "get_infected_nodes: initially recovered nodes are removed from H before the out-component is taken", func=f,
            node=oc[0] if oc else f.node, construct="get_infected_nodes order: build, remove, out-component: %s" % ok,
            detail="" if ok else "the out-component is not computed on H with initial_recovereds removed")
     rr = [n for n in own_nodes(f.node) if isinstance(n, ast.Return)]
     okr = bool(oc) and len(rr) == 1 and _k(rr[0].value) == _k(oc[0].targets[0])
-    rep.ob("R14", okr, "get_infected_nodes returns that out-component", func=f, node=rr[0] if rr else f.node, construct="return", detail="")
+    rep.ob("R14.gin", okr, "get_infected_nodes returns that out-component", func=f, node=rr[0] if rr else f.node, construct="return", detail="")
     # directed_percolate_network: exponential delays with the matching rates
     f = repo.f("directed_percolate_network")
     rep.analysed(f)
